@@ -42,7 +42,7 @@ func genCase(t *rapid.T) Case {
 	c := Case{NSrc: rapid.IntRange(1, 3).Draw(t, "nsrc"), TTL: rapid.SampledFrom([]int{1, 60}).Draw(t, "ttl"), Preload: rapid.Bool().Draw(t, "preload")}
 	c.NPid = rapid.OneOf(rapid.IntRange(2, 6), rapid.IntRange(2, 40)).Draw(t, "npid")
 	n := rapid.IntRange(5, 40).Draw(t, "nsteps")
-	ops := []string{"set", "set", "set", "set", "del", "failnext", "refresh", "refresh", "refresh", "refreshcancel", "refreshconc", "refreshconccancel", "refreshduringmiss", "get", "get", "get", "list", "advance", "advance"}
+	ops := []string{"set", "set", "set", "set", "del", "failnext", "refresh", "refresh", "refresh", "refreshcancel", "refreshdeadline", "refreshconc", "refreshconccancel", "refreshduringmiss", "get", "get", "get", "list", "advance", "advance"}
 	for i := 0; i < n; i++ {
 		s := step{Op: rapid.SampledFrom(ops).Draw(t, "op")}
 		s.Src = rapid.IntRange(0, c.NSrc-1).Draw(t, "src")
@@ -107,6 +107,7 @@ type source struct {
 	failNext bool
 	// hooks for one call
 	cancelIn  context.CancelFunc // FetchAll cancels the caller's context and returns its error
+	stallIn   bool               // FetchAll waits until the caller's context is done (its deadline passes) and returns its error
 	parkIn    chan struct{}      // FetchAll waits here first
 	parkedSig chan struct{}
 	parkFetch, parkFetchSig chan struct{} // Fetch waits here first
@@ -137,6 +138,13 @@ func (s *source) FetchAll(ctx context.Context) ([]*model.ProviderInfo, error) {
 	}
 	s.mu.Lock()
 	defer s.mu.Unlock()
+	if s.stallIn {
+		s.stallIn = false
+		s.mu.Unlock()
+		<-ctx.Done()
+		s.mu.Lock()
+		return nil, ctx.Err()
+	}
 	if s.cancelIn != nil {
 		s.cancelIn()
 		s.cancelIn = nil
@@ -441,17 +449,30 @@ func runCase(t *testing.T) func(Case) pbt.Result {
 					if !completedRefresh(i, s, append([]delivery(nil), dlog...), nil) {
 						return
 					}
-				case "refreshcancel":
+				case "refreshcancel", "refreshdeadline":
 					dlog = nil
 					ctx, cancel := context.WithCancel(context.Background())
 					srcs[s.Src].mu.Lock()
-					srcs[s.Src].cancelIn = cancel
+					if s.Op == "refreshdeadline" {
+						// the caller's deadline (50 ms on the virtual clock) passes while source Src is answering
+						cancel()
+						ctx, cancel = context.WithTimeout(context.Background(), 50*time.Millisecond)
+						srcs[s.Src].stallIn = true
+					} else {
+						srcs[s.Src].cancelIn = cancel
+					}
 					srcs[s.Src].mu.Unlock()
 					err := pc.Refresh(ctx)
 					cancel()
 					srcs[s.Src].mu.Lock()
+					reached := srcs[s.Src].cancelIn == nil && !srcs[s.Src].stallIn
 					srcs[s.Src].cancelIn = nil
+					srcs[s.Src].stallIn = false
 					srcs[s.Src].mu.Unlock()
+					if err == nil && reached {
+						fail(i, s, fmt.Sprintf("Refresh returned nil although its context ended (%s) while source %d was answering, which returned the context's error: a refresh that was cut short reports success", map[bool]string{true: "deadline exceeded", false: "cancelled"}[s.Op == "refreshdeadline"], s.Src))
+						return
+					}
 					if err == nil {
 						// the cancelling source was not reached (an earlier source failed?) -- it completed
 						if !completedRefresh(i, s, append([]delivery(nil), dlog...), nil) {
@@ -732,7 +753,7 @@ func pidIndex(id peer.ID) int {
 
 func TestC06_Model(t *testing.T) {
 	pbt.Run(t, pbt.Config{Prop: "C06", Unit: "TestC06_Model", TrackCurrent: true,
-		Rule: "histories of 5..40 steps over 1..3 in-memory sources and 2..40 providers (enough to cross the merge threshold both ways), TTL 1 s or 60 s on the bubble's virtual clock: set / bulk set / delete a provider at a source (every record carries a unique version tag and a drawn or absent advertisement time), make a source fail its next call, Refresh, Refresh cancelled by source i, Refresh issued while another Refresh is parked inside a source (completing, or cancelled part-way), Refresh issued while a lookup of an ID no source knows is parked inside a source (the Refresh must ask the sources itself), Get (hit / miss / remembered-absent), List, advance time by TTL/2, TTL, 2*TTL+1; oracle: reference model of the statement with per-provider [lo, hi] bounds on the advertisement time (lo over completed operations, hi over all deliveries), exact TTL bounds on the virtual clock (either outcome only at equality or after partial deliveries), remembered-absent providers answered nil with zero Fetch calls, List without duplicates / nil / never-delivered providers, records never torn. Non-trivial: history with a cancelled or concurrent refresh, a remembered-absent hit, an expiry, or a bulk update over more than 8 providers; distinct by (sources, set of step kinds, sizes).",
+		Rule: "histories of 5..40 steps over 1..3 in-memory sources and 2..40 providers (enough to cross the merge threshold both ways), TTL 1 s or 60 s on the bubble's virtual clock: set / bulk set / delete a provider at a source (every record carries a unique version tag and a drawn or absent advertisement time), make a source fail its next call, Refresh, Refresh cancelled by source i, Refresh whose deadline passes while source i answers, Refresh issued while another Refresh is parked inside a source (completing, or cancelled part-way), Refresh issued while a lookup of an ID no source knows is parked inside a source (the Refresh must ask the sources itself), Get (hit / miss / remembered-absent), List, advance time by TTL/2, TTL, 2*TTL+1; oracle: reference model of the statement with per-provider [lo, hi] bounds on the advertisement time (lo over completed operations, hi over all deliveries), exact TTL bounds on the virtual clock (either outcome only at equality or after partial deliveries), remembered-absent providers answered nil with zero Fetch calls, List without duplicates / nil / never-delivered providers, records never torn. Non-trivial: history with a cancelled or concurrent refresh, a remembered-absent hit, an expiry, or a bulk update over more than 8 providers; distinct by (sources, set of step kinds, sizes).",
 		Assumptions: []string{"a source that errors counts as not responding in that call", "automatic refresh is disabled here (C07 covers it); the constructor's preload counts as a refresh", "after a cancelled refresh, providers it delivered are 'uncertain' until the next completed refresh: only the identity and time bounds of a returned record are asserted"},
 	}, genCase, runCase(t))
 }
